@@ -33,6 +33,42 @@ type TG struct {
 	JSONTags bool
 	// MaxFields per struct
 	MaxFields int
+	// AllMapsProto: every map field carries the proto option (C12's "map fields tagged proto")
+	AllMapsProto bool
+	// NoIndexZero: indexes are legal protobuf field numbers
+	NoIndexZero bool
+}
+
+// hasPlainMap reports whether t contains a map field without the proto option
+func hasPlainMap(t reflect.Type, seen map[reflect.Type]bool) bool {
+	switch t.Kind() {
+	case reflect.Ptr, reflect.Slice:
+		return hasPlainMap(t.Elem(), seen)
+	case reflect.Map:
+		return true
+	case reflect.Struct:
+		if seen[t] {
+			return false
+		}
+		seen[t] = true
+		for i := 0; i < t.NumField(); i++ {
+			sf := t.Field(i)
+			ft := sf.Type
+			for ft.Kind() == reflect.Ptr {
+				ft = ft.Elem()
+			}
+			if ft.Kind() == reflect.Map {
+				if !strings.Contains(sf.Tag.Get("plenc"), ",proto") || hasPlainMap(ft.Key(), seen) || hasPlainMap(ft.Elem(), seen) {
+					return true
+				}
+				continue
+			}
+			if hasPlainMap(sf.Type, seen) {
+				return true
+			}
+		}
+	}
+	return false
 }
 
 var fieldIndexes = []int{0, 1, 2, 3, 15, 16, 17, 2047, 2048, 3000}
@@ -107,6 +143,9 @@ func (g *TG) Type(depth int, pos int) reflect.Type {
 				continue
 			}
 			if g.NoProtoOpt && usesProtoOpt(t, map[reflect.Type]bool{}) {
+				continue
+			}
+			if g.AllMapsProto && (t.Kind() == reflect.Map || hasPlainMap(t, map[reflect.Type]bool{})) {
 				continue
 			}
 			return t
@@ -204,6 +243,9 @@ func (g *TG) Struct(depth int) reflect.Type {
 		if g.R.IntN(6) == 0 {
 			idx = g.R.IntN(5000)
 		}
+		if g.NoIndexZero && (idx == 0 || (idx >= 19000 && idx <= 19999)) {
+			idx = 4
+		}
 		if used[idx] {
 			continue
 		}
@@ -257,7 +299,7 @@ func (g *TG) option(t reflect.Type) string {
 		return ",flat"
 	case (k == reflect.String || bt == model.NullStringT) && g.R.IntN(3) == 0:
 		return ",intern"
-	case k == reflect.Map && bt != model.JSONMapT && !g.NoProtoOpt && g.R.IntN(3) == 0:
+	case k == reflect.Map && bt != model.JSONMapT && !g.NoProtoOpt && (g.AllMapsProto || g.R.IntN(3) == 0):
 		if g.C.Validate(t, "proto") == "" {
 			return ",proto"
 		}
